@@ -1,6 +1,7 @@
 import QuantemModel.Lemmas.Dataset
 import QuantemModel.Lemmas.DatasetCrop
 import QuantemModel.Lemmas.DatasetHeap
+import QuantemModel.Lemmas.DatasetExt
 /-!
 C03 — Dataset containers stay coherent under any history of operations.
 Theorems about the state machine `Model/Dataset.lean` (array + calibration + class under
@@ -562,6 +563,221 @@ theorem axis_out_of_range {d : Ds} (a : Int) (h : a < -(d.ndim : Int) ∨ (d.ndi
   · unfold bin axesList; simp [hn]
   · unfold resample axesList; simp [hn]
 
+/-! ### histories from the caller's side: rejected calls, in-place histories vs copying histories -/
+section Histories
+open QuantemModel.DatasetExt
+
+/-- **a rejected call is a no-op on the whole state**: whatever the reason of the rejection
+(bad argument, failing validation, part-way through a multi-axis argument) the history
+continues as if the call had not been made. -/
+theorem rejected_call_is_noop {d : Ds} {op : Op} {e : Err} (follow : Bool) (rest : List (Op × Bool))
+    (h : step d op = .error e) : run d ((op, follow) :: rest) = run d rest := by
+  simp [run, h]
+
+/-- **rejected calls can be erased from any history**: the history with every rejected call
+removed contains no rejected call and ends in the same dataset. -/
+theorem rejected_calls_erasable (ops : List (Op × Bool)) :
+    ∀ d : Ds, run d (eraseRejected d ops) = run d ops ∧ AllAccepted d (eraseRejected d ops) := by
+  induction ops with
+  | nil => intro d; simp [eraseRejected, run, AllAccepted]
+  | cons p rest ih =>
+    intro d
+    obtain ⟨op, follow⟩ := p
+    cases hs : step d op with
+    | error e =>
+      simp only [eraseRejected, hs, run]
+      exact ih d
+    | ok pr =>
+      obtain ⟨d', r⟩ := pr
+      simp only [eraseRejected, hs, run, AllAccepted]
+      cases follow <;> cases r <;> simp <;> exact ih _
+
+/-- **in-place histories ≡ copying histories** (`inplace_eq_copy` lifted from one call to
+every finite history, rejected calls included): replace every in-place pad / crop / bin /
+fourier_resample by the copying call and continue on what it returns, and every copying call
+whose result the history continues on by the in-place call — the history ends in the same
+dataset (array, calibration, class). -/
+theorem mirror_history (ops : List (Op × Bool)) (hw : ∀ p ∈ ops, p.1.WF) :
+    ∀ d : Ds, Inv d → run d (mirror ops) = run d ops := by
+  induction ops with
+  | nil => intro d _; rfl
+  | cons p rest ih =>
+    intro d hi
+    obtain ⟨op, follow⟩ := p
+    have hw' : ∀ q ∈ rest, q.1.WF := fun q hq => hw q (by simp [hq])
+    have hop : op.WF := hw (op, follow) (by simp)
+    have ih' := ih hw'
+    -- a step that is kept as it is
+    have same : run d ((op, follow) :: mirror rest) = run d ((op, follow) :: rest) := by
+      simp only [run]
+      split
+      · exact ih' d hi
+      · rename_i d' r hs
+        have := inv_step hi hop hs
+        split
+        · rename_i x; exact ih' x (this.2 x rfl)
+        · exact ih' d' this.1
+    cases hip : op.inplace? with
+    | none => simp only [mirror, List.map_cons, mirrorOp, hip]; exact same
+    | some b =>
+      have hne : op.inplace? ≠ none := by simp [hip]
+      have key := inplace_eq_copy hi op hne
+      cases b with
+      | true =>
+        have hself : op.setInplace true = op := setInplace_self hip
+        rw [hself] at key
+        simp only [mirror, List.map_cons, mirrorOp, hip]
+        show run d ((op.setInplace false, true) :: mirror rest) = run d ((op, follow) :: rest)
+        cases hs : step d op with
+        | error e =>
+          have := (key.1 e).1 hs
+          simp only [run, hs, this]; exact ih' d hi
+        | ok pr =>
+          obtain ⟨a, r⟩ := pr
+          obtain ⟨hr, hc⟩ := (key.2 a r).1 hs
+          subst hr
+          have hia := (inv_step hi hop hs).1
+          simp only [run, hs, hc]
+          cases follow <;> exact ih' a hia
+      | false =>
+        have hself : op.setInplace false = op := setInplace_self hip
+        rw [hself] at key
+        cases follow with
+        | false => simp only [mirror, List.map_cons, mirrorOp, hip]; exact same
+        | true =>
+          simp only [mirror, List.map_cons, mirrorOp, hip, if_true]
+          show run d ((op.setInplace true, false) :: mirror rest) = run d ((op, true) :: rest)
+          cases hs : step d (op.setInplace true) with
+          | error e =>
+            have := (key.1 e).1 hs
+            simp only [run, hs, this]; exact ih' d hi
+          | ok pr =>
+            obtain ⟨a, r⟩ := pr
+            obtain ⟨hr, hc⟩ := (key.2 a r).1 hs
+            subst hr
+            have hia := (inv_step hi (setInplace_WF true hop) hs).1
+            simp only [run, hs, hc]
+            exact ih' a hia
+
+end Histories
+
+/-! ### input forms in front of the state machine (`Model/DatasetExt.lean`) -/
+section Forms
+open QuantemModel.DatasetExt
+
+/-- **coherence also through every input form**: a public call in any of its input forms
+(`axes` as int / bool / float / NumPy scalar / sequence, calibration as scalar / flat / nested /
+non-numeric / ragged, data as ndarray / nested sequence / bare number, index items as Python or
+NumPy integers, lists or integer arrays, `copy(copy_custom_attributes=…)`) that does not raise
+keeps the invariant. -/
+theorem inv_stepX {d d' : Ds} {ox : OpX} {r : Option Ds} (hi : Inv d) (hw : OpX.WF ox)
+    (h : stepX d ox = .ok (d', r)) : Inv d' ∧ ∀ x, r = some x → Inv x := by
+  obtain ⟨op, hwf, hs⟩ := stepX_reduces h
+  exact inv_step hi (hwf hw) hs
+
+/-- **construction from any container and calibration form** (`from_array` behind
+`ensure_valid_array`, `from_shape`): when it does not raise the dataset is coherent, of the
+class asked for, and holds the data handed in. -/
+theorem inv_newX {cls : DsClass} {form : ArrayForm} {shape : List Nat} {data : Option (List Val)} {kind : Kind}
+    {o s : Option NdForm} {u : Option UnitsForm} {d : Ds} (hd : dataOk shape data)
+    (h : fromArrayF cls form shape data kind o s u = .ok d) :
+    Inv d ∧ d.cls = cls ∧ d.kind = kind ∧ d.data = data :=
+  fromArrayF_inv hd h
+
+/-- `from_shape`: not on the base class; otherwise a coherent float dataset filled with `fill_value`. -/
+theorem from_shape_spec {cls : DsClass} {shape : List Nat} {fill : Val} {o s : Option NdForm} {u : Option UnitsForm} :
+    (cls = .base → fromShape cls shape fill o s u = .error .attribute) ∧
+    (∀ d, fromShape cls shape fill o s u = .ok d →
+      Inv d ∧ d.cls = cls ∧ d.kind = .float ∧ d.data = some (List.replicate (prod shape) fill)) := by
+  constructor
+  · intro hc; simp [fromShape, hc]
+  · intro d h
+    simp only [fromShape] at h
+    split at h
+    · simp at h
+    · exact fromArrayF_inv (by intro dat hdat; simp at hdat; subst hdat; simp) h
+
+/-- **`_normalize_axes` by input form**: `None` is all axes, a Python int is that axis, a NumPy
+integer scalar is rejected (TypeError), a sequence of ints is that sequence; floats go through
+`int()` (truncation toward zero, `pyInt`). -/
+theorem axes_forms :
+    axesOfForm .none = .ok .all ∧
+    (∀ a : Int, axesOfForm (.scalar (a : Rat)) = .ok (.one a)) ∧
+    (∀ a : Int, axesOfForm (.npInt a) = .error .type) ∧
+    (∀ as : List Int, axesOfForm (.seq (as.map fun i => (i : Rat))) = .ok (.many as)) := by
+  refine ⟨rfl, ?_, fun _ => rfl, ?_⟩
+  · intro a; simp [axesOfForm, pyInt_intCast]
+  · intro as
+    have key : ∀ l : List Int, (l.map fun i => (i : Rat)).map pyInt = l := by
+      intro l
+      induction l with
+      | nil => rfl
+      | cons x xs ih =>
+        show pyInt (x : Rat) :: (xs.map fun i => (i : Rat)).map pyInt = x :: xs
+        rw [pyInt_intCast, ih]
+    show Except.ok (AxesArg.many ((as.map fun i => (i : Rat)).map pyInt)) = _
+    rw [key as]
+
+/-- a NumPy integer scalar as `axes` is rejected by crop, bin and fourier_resample -/
+theorem npint_axes_rejected (d : Ds) (a : Int) (w : List (Int × Int)) (f : FacArg) (arg : RsArg) (m ip : Bool) :
+    stepX d (.cropF w (.npInt a) ip) = .error .type ∧
+    stepX d (.binF f (.npInt a) m false ip) = .error .type ∧
+    stepX d (.resampleF arg (.npInt a) ip) = .error .type := by
+  simp [stepX, axesOfForm]
+
+/-- **`validate_ndinfo` by input form**: bool / string scalars and non-numeric sequences are
+ValueErrors whatever their length, ragged nestings and non-sequences TypeErrors, a rectangular
+nesting counts with its flattened length; an accepted value has one entry per axis. -/
+theorem ndinfo_forms (n : Nat) :
+    validateNdForm .boolScalar n = .error .value ∧ validateNdForm .strScalar n = .error .value ∧
+    (∀ len, validateNdForm (.nonNumeric len) n = .error .value) ∧
+    validateNdForm .ragged n = .error .type ∧ validateNdForm .other n = .error .type ∧
+    (∀ rows, validateNdForm (.nested rows) n = validateNdForm (.flat rows.flatten) n) := by
+  refine ⟨rfl, rfl, ?_, rfl, rfl, fun _ => rfl⟩
+  intro len; simp [validateNdForm]
+
+/-- **the plain forms are the state machine's own arguments**: on Python ints, lists, strings and
+ndarrays the calls with input forms are exactly the operations of `Model/Dataset.lean` (so every
+theorem above about `step` speaks about them). -/
+theorem stepX_plain (d : Ds) :
+    (∀ v, stepX d (.setOriginF (NdForm.ofNdInfo v)) = step d (.setOrigin v)) ∧
+    (∀ v, stepX d (.setSamplingF (NdForm.ofNdInfo v)) = step d (.setSampling v)) ∧
+    (∀ v, stepX d (.setUnitsF (UnitsForm.ofArg v)) = step d (.setUnits v)) ∧
+    (∀ sh dat k, stepX d (.setArrayF .ndarray sh dat k) = step d (.setArray sh dat k)) ∧
+    (∀ w (a : Int) ip, stepX d (.cropF w (.scalar (a : Rat)) ip) = step d (.crop w (.one a) ip)) ∧
+    (∀ f (a : Int) m b ip, stepX d (.binF f (.scalar (a : Rat)) m b ip) = step d (.bin f (.one a) m b ip)) ∧
+    (∀ arg (a : Int) ip, stepX d (.resampleF arg (.scalar (a : Rat)) ip) = step d (.resample arg (.one a) ip)) ∧
+    (∀ i : Int, stepX d (.getitemF (.bare (.npInt i))) = step d (.getitem [.int i])) ∧
+    (∀ c, stepX d (.copyWith c) = step d .copy) := by
+  refine ⟨?_, ?_, ?_, fun _ _ _ => rfl, ?_, ?_, ?_, fun _ => rfl, fun _ => rfl⟩
+  · intro v
+    cases v with
+    | scalar q => simp [stepX, setNd, NdForm.ofNdInfo, validateNdForm, step, setOrigin, validateNdinfo]
+    | list qs =>
+      by_cases hl : qs.length = d.ndim <;>
+        simp [stepX, setNd, NdForm.ofNdInfo, validateNdForm, step, setOrigin, validateNdinfo, hl]
+    | badType => simp [stepX, setNd, NdForm.ofNdInfo, validateNdForm, step, setOrigin, validateNdinfo]
+  · intro v
+    cases v with
+    | scalar q => simp [stepX, setNd, NdForm.ofNdInfo, validateNdForm, step, setSampling, validateNdinfo]
+    | list qs =>
+      by_cases hl : qs.length = d.ndim <;>
+        simp [stepX, setNd, NdForm.ofNdInfo, validateNdForm, step, setSampling, validateNdinfo, hl]
+    | badType => simp [stepX, setNd, NdForm.ofNdInfo, validateNdForm, step, setSampling, validateNdinfo]
+  · intro v
+    cases v with
+    | str s => simp [stepX, UnitsForm.ofArg, validateUnitsForm, step, setUnits, validateUnits]
+    | list ss =>
+      by_cases hl : ss.length = d.ndim <;>
+        simp [stepX, UnitsForm.ofArg, validateUnitsForm, step, setUnits, validateUnits, hl, Function.comp_def, UEntry.toStr]
+    | badType => simp [stepX, UnitsForm.ofArg, validateUnitsForm, step, setUnits, validateUnits]
+  · intro w a ip; simp [stepX, axesOfForm, pyInt_intCast]
+  · intro f a m b ip
+    cases b <;> simp [stepX, axesOfForm, pyInt_intCast, step, bin]
+  · intro arg a ip; simp [stepX, axesOfForm, pyInt_intCast]
+
+end Forms
+
 /-! ### non-vacuity: the hypotheses are satisfiable and the operations succeed on concrete data -/
 
 /-- a coherent `Dataset3d` of shape (3,4,5) -/
@@ -635,5 +851,27 @@ example : ∃ p, plan ex3.shape [.ellipsis, Item.full, .int 1, .list [0, 2]] = .
 example : ∃ p, plan ex3.shape [.int 1, .ellipsis] = .ok p ∧ p.items = [.int 1, Item.full, Item.full] :=
   ⟨_, rfl, rfl⟩
 example : plan ex3.shape [.ellipsis, .int 0, .ellipsis] = .error .index := rfl
+
+-- rejected calls: `bin((2, 2, 0))` in place on the (3,4,5) dataset is rejected (hypothesis of `rejected_call_is_noop`) …
+example : step ex3 (.bin (.many [some 2, some 2, some 0]) .all false false true) = .error .value := rfl
+-- … and erased from a history, the accepted call after it stays
+example : QuantemModel.DatasetExt.eraseRejected ex3
+    [(.bin (.many [some 2, some 2, some 0]) .all false false true, false), (.touch, false)] = [(.touch, false)] := rfl
+-- mirror histories differ from the history itself (in place <-> copying)
+example : QuantemModel.DatasetExt.mirror [(Op.pad (.outShape [4, 4, 7]) true, false), (Op.crop [(1, -1)] (.one (-1)) false, true),
+      (Op.touch, false)] =
+    [(Op.pad (.outShape [4, 4, 7]) false, true), (Op.crop [(1, -1)] (.one (-1)) true, false), (Op.touch, false)] := rfl
+-- input forms: `axes=1.5` is axis 1, `axes=-0.5` is axis 0 (truncation), a NumPy scalar is rejected
+example : QuantemModel.DatasetExt.pyInt ⟨3, 2, by decide, by decide⟩ = 1 := by decide
+example : QuantemModel.DatasetExt.pyInt ⟨-1, 2, by decide, by decide⟩ = 0 := by decide
+example : QuantemModel.DatasetExt.pyInt ⟨-3, 2, by decide, by decide⟩ = -1 := by decide
+-- a call through an input form succeeds (hypothesis of `inv_stepX`), construction through a nested list too
+example : ∃ a, QuantemModel.DatasetExt.stepX ex3 (.cropF [(1, -1)] (.scalar (-1)) true) = .ok (a, none) ∧ a.shape = [3, 4, 3] :=
+  ⟨_, rfl, rfl⟩
+example : ∃ d, QuantemModel.DatasetExt.fromArrayF .d2 .seq [5] none .float none
+    (some (.nested [[1], [2]])) (some (.seq [.str "nm", .int 3])) = .ok d ∧ d.shape = [1, 5] ∧ d.units = ["nm", "3"] :=
+  ⟨_, rfl, rfl, rfl⟩
+example : QuantemModel.DatasetExt.fromArrayF .base .seq [2, 2] none .bool none none none = .error .type := rfl
+example : ∃ d, QuantemModel.DatasetExt.fromShape .d3 [4, 4] ⟨1, 0⟩ none none none = .ok d ∧ d.shape = [1, 4, 4] := ⟨_, rfl, rfl⟩
 
 end QuantemModel.Props.C03
